@@ -2,8 +2,10 @@ package checks
 
 import (
 	"crypto/sha1"
+	"crypto/sha256"
 	"encoding/binary"
 	"fmt"
+	"path/filepath"
 	"sort"
 
 	"github.com/go-git/go-git/v6/plumbing"
@@ -27,16 +29,34 @@ func c10Large(c *fw.Ctx) {
 	layouts := []string{"none", "first-only", "last-only", "every-32nd", "after-8192-only", "before-8192-only"}
 	c.Bound("large_index_sizes", sizes)
 	c.Bound("large_index_64bit_layouts", layouts)
+	scratch := c.TempDir("c10large")
+	type sz struct{ n, hs int }
+	var cases []sz
 	for _, n := range sizes {
+		cases = append(cases, sz{n, 20})
+	}
+	cases = append(cases, sz{8193, 32}) // 32-byte ids: every table of the file starts elsewhere
+	if c.Thorough() {
+		cases = append(cases, sz{16385, 32})
+	}
+	c.Bound("large_index_sha256_sizes", []int{8193})
+	c.Bound("large_index_queries", "every 7th row and the chunk-boundary rows by id, crc and offset; absent ids next to present ones; absent offsets; prefixes of 1, 2, 3, hs-1, hs, hs+1 bytes of eight rows; whole listings in id and offset order twice; MemoryIndex, LazyIndex with/without pool, mmap scanner")
+	for ci, cs := range cases {
+		n, hs := cs.n, cs.hs
 		hashes := make([]string, n)
 		for i := range hashes {
 			var b [8]byte
 			binary.BigEndian.PutUint64(b[:], uint64(i))
-			s := sha1.Sum(b[:])
-			hashes[i] = string(s[:])
+			if hs == 32 {
+				s := sha256.Sum256(b[:])
+				hashes[i] = string(s[:])
+			} else {
+				s := sha1.Sum(b[:])
+				hashes[i] = string(s[:])
+			}
 		}
 		sort.Strings(hashes)
-		for _, lay := range layouts {
+		for li, lay := range layouts {
 			ents := make([]c10Entry, n)
 			model := map[string]c10Entry{}
 			for i, h := range hashes {
@@ -60,31 +80,40 @@ func c10Large(c *fw.Ctx) {
 				ents[i] = c10Entry{H: h, Off: off, CRC: uint32(i*2654435761) ^ 0x5a5a5a5a}
 				model[h] = ents[i]
 			}
-			idx, rev, packSum, err := c10Encode(20, ents)
+			idx, rev, packSum, err := c10Encode(hs, ents)
 			if err != nil {
 				c.Fail("large index: go-git cannot encode", fmt.Sprintf("n=%d layout=%s: %v", n, lay, err), map[string]any{"n": n, "layout": lay})
 				continue
 			}
-			f := &c10Files{hs: 20, idx: idx, rev: rev, packSum: packSum}
+			f := &c10Files{hs: hs, idx: idx, rev: rev, packSum: packSum}
+			c10LargeFiles(f, n, filepath.Join(scratch, fmt.Sprintf("%d-%d", ci, li)))
+			lm := c10NewModel(hs, ents)
 			for _, impl := range []struct {
 				name string
 				open func(f *c10Files) (c10Reader, error)
-			}{{"memory", c10OpenMemory}, {"lazy", c10OpenLazy(false)}, {"lazy+pool1", c10OpenLazy(true)}} {
+			}{{"memory", c10OpenMemory}, {"lazy", c10OpenLazy(false)}, {"lazy+pool1", c10OpenLazy(true)}, {"mmap", c10OpenMmap}} {
 				c.Eval()
-				c.Class(fmt.Sprintf("large|%d|%s|%s", n, lay, impl.name))
+				c.Class(fmt.Sprintf("large|%d|%d|%s|%s", hs, n, lay, impl.name))
 				r, err := impl.open(f)
 				if err != nil {
 					c.Fail(fmt.Sprintf("large index: %s refuses a valid index written by go-git (64-bit offsets: %s)", impl.name, lay),
 						fmt.Sprintf("%s cannot open the idx go-git wrote for %d entries, 64-bit offsets %s: %v", impl.name, n, lay, err), map[string]any{"n": n, "layout": lay, "impl": impl.name})
 					continue
 				}
+				bad := c10LargeMore(impl.name, r, lm, n)
 				ir, ok := r.(*c10IdxReader)
 				if !ok {
 					r.close()
+					if bad != "" {
+						c.Fail(fmt.Sprintf("large index: %s answers differently from the map (64-bit offsets: %s)", impl.name, lay),
+							fmt.Sprintf("%s on %d entries (%d-byte ids), 64-bit offsets %s: %s", impl.name, n, hs, lay, bad), map[string]any{"n": n, "hs": hs, "layout": lay, "impl": impl.name})
+					}
 					continue
 				}
-				bad := ""
 				for i, h := range hashes {
+					if bad != "" {
+						break
+					}
 					if i%7 != 0 && i != n-1 && i != 8191 && i != 8192 && i != 8193 { // every 7th entry plus the boundary rows
 						continue
 					}
